@@ -231,7 +231,7 @@ fn b2_body_pin<S: Src, E: Enc + core::fmt::Debug>(s: &mut S, mask: u32, slen: us
     vnote!(s, "got", "{:?} want {:?}", got.recs, want.recs);
     vcheck!(s, got.n == want.n, "c02.b2 number of records of an element");
     vcheck!(s, gds_ref::reclist_eq(&got, &want), "c02.b2 element records in BNF order with the element's content");
-    vcover!(s, got.n >= 5, "non-trivial element reachable");
+    vcover!(s, got.n >= 4, "element flattened reachable");
     core::mem::forget(e);
     core::mem::forget(got);
     core::mem::forget(want);
@@ -805,16 +805,16 @@ pub fn c02_s_b2_e4_m1663_pt2<S: Src>(s: &mut S) {
 pub fn c02_s_b2_e4_m1663_pt4<S: Src>(s: &mut S) {
     b2_body_pin::<S, GdsTextElem>(s, 1663, 1, 2, 4)
 }
-pub fn c02_t_b2_lib_1x1_k3_m2047<S: Src>(s: &mut S) {
+pub fn c02_x_b2_lib_1x1_k3_m2047<S: Src>(s: &mut S) {
     b2_lib_body(s, 1, 1, 3, 2047)
 }
-pub fn c02_t_b2_lib_2x2_k0_m2047<S: Src>(s: &mut S) {
+pub fn c02_x_b2_lib_2x2_k0_m2047<S: Src>(s: &mut S) {
     b2_lib_body(s, 2, 2, 0, 2047)
 }
-pub fn c02_t_b2_lib_2x2_k3_m0<S: Src>(s: &mut S) {
+pub fn c02_x_b2_lib_2x2_k3_m0<S: Src>(s: &mut S) {
     b2_lib_body(s, 2, 2, 3, 0)
 }
-pub fn c02_t_b2_lib_1x2_k5_m1031<S: Src>(s: &mut S) {
+pub fn c02_x_b2_lib_1x2_k5_m1031<S: Src>(s: &mut S) {
     b2_lib_body(s, 1, 2, 5, 1031)
 }
 pub fn c02_q_b2_lib_0x0_k0_m0<S: Src>(s: &mut S) {
@@ -1006,10 +1006,10 @@ harnesses! { k, "sel_gds21_write.rs";
     #[kani::stub(std::str::from_utf8, from_utf8_model)] #[kani::stub(crate::data::GdsFloat64::encode, enc_bits)] #[kani::stub(crate::data::GdsFloat64::decode, dec_bits)] #[kani::stub(alloc::fmt::format, fmt_stub)] #[kani::unwind(22)] c02_s_b2_e4_m1663_pt1;
     #[kani::stub(std::str::from_utf8, from_utf8_model)] #[kani::stub(crate::data::GdsFloat64::encode, enc_bits)] #[kani::stub(crate::data::GdsFloat64::decode, dec_bits)] #[kani::stub(alloc::fmt::format, fmt_stub)] #[kani::unwind(22)] c02_s_b2_e4_m1663_pt2;
     #[kani::stub(std::str::from_utf8, from_utf8_model)] #[kani::stub(crate::data::GdsFloat64::encode, enc_bits)] #[kani::stub(crate::data::GdsFloat64::decode, dec_bits)] #[kani::stub(alloc::fmt::format, fmt_stub)] #[kani::unwind(22)] c02_s_b2_e4_m1663_pt4;
-    #[kani::stub(std::str::from_utf8, from_utf8_model)] #[kani::stub(crate::data::GdsFloat64::encode, enc_bits)] #[kani::stub(crate::data::GdsFloat64::decode, dec_bits)] #[kani::stub(alloc::fmt::format, fmt_stub)] #[kani::unwind(60)] c02_t_b2_lib_1x1_k3_m2047;
-    #[kani::stub(std::str::from_utf8, from_utf8_model)] #[kani::stub(crate::data::GdsFloat64::encode, enc_bits)] #[kani::stub(crate::data::GdsFloat64::decode, dec_bits)] #[kani::stub(alloc::fmt::format, fmt_stub)] #[kani::unwind(60)] c02_t_b2_lib_2x2_k0_m2047;
-    #[kani::stub(std::str::from_utf8, from_utf8_model)] #[kani::stub(crate::data::GdsFloat64::encode, enc_bits)] #[kani::stub(crate::data::GdsFloat64::decode, dec_bits)] #[kani::stub(alloc::fmt::format, fmt_stub)] #[kani::unwind(60)] c02_t_b2_lib_2x2_k3_m0;
-    #[kani::stub(std::str::from_utf8, from_utf8_model)] #[kani::stub(crate::data::GdsFloat64::encode, enc_bits)] #[kani::stub(crate::data::GdsFloat64::decode, dec_bits)] #[kani::stub(alloc::fmt::format, fmt_stub)] #[kani::unwind(60)] c02_t_b2_lib_1x2_k5_m1031;
+    #[kani::stub(std::str::from_utf8, from_utf8_model)] #[kani::stub(crate::data::GdsFloat64::encode, enc_bits)] #[kani::stub(crate::data::GdsFloat64::decode, dec_bits)] #[kani::stub(alloc::fmt::format, fmt_stub)] #[kani::unwind(60)] c02_x_b2_lib_1x1_k3_m2047;
+    #[kani::stub(std::str::from_utf8, from_utf8_model)] #[kani::stub(crate::data::GdsFloat64::encode, enc_bits)] #[kani::stub(crate::data::GdsFloat64::decode, dec_bits)] #[kani::stub(alloc::fmt::format, fmt_stub)] #[kani::unwind(60)] c02_x_b2_lib_2x2_k0_m2047;
+    #[kani::stub(std::str::from_utf8, from_utf8_model)] #[kani::stub(crate::data::GdsFloat64::encode, enc_bits)] #[kani::stub(crate::data::GdsFloat64::decode, dec_bits)] #[kani::stub(alloc::fmt::format, fmt_stub)] #[kani::unwind(60)] c02_x_b2_lib_2x2_k3_m0;
+    #[kani::stub(std::str::from_utf8, from_utf8_model)] #[kani::stub(crate::data::GdsFloat64::encode, enc_bits)] #[kani::stub(crate::data::GdsFloat64::decode, dec_bits)] #[kani::stub(alloc::fmt::format, fmt_stub)] #[kani::unwind(60)] c02_x_b2_lib_1x2_k5_m1031;
     #[kani::stub(std::str::from_utf8, from_utf8_model)] #[kani::stub(crate::data::GdsFloat64::encode, enc_bits)] #[kani::stub(crate::data::GdsFloat64::decode, dec_bits)] #[kani::stub(alloc::fmt::format, fmt_stub)] #[kani::unwind(60)] c02_q_b2_lib_0x0_k0_m0;
 }
 // END GENERATED
